@@ -52,6 +52,32 @@ class GridPost:
         "center_crop", "center_pad", "narrow", "region_of_interest", "pool",
     ]
 
+    COPY_ACCESSORS = ["align_corners", "clone", "__deepcopy__"]
+
+    @staticmethod
+    def _snap(args, kwargs):
+        g = args[0]
+        return {"size": [float(x) for x in g._size], "attrs": [a.tolist() for a in attrs(g)], "flag": g.align_corners(), "tensors": [id(g._size), id(g._center), id(g._spacing), id(g._direction)]}
+
+    @classmethod
+    def _snap_if_copying(cls, args, kwargs):
+        # the getter form (no argument) of align_corners() is called all the time inside the library: not snapshotted
+        if len(args) == 1 and not kwargs:
+            return None
+        return cls._snap(args, kwargs)
+
+    def post_copy_accessor(self, name):
+        def post(ctx, g, args, kw, r):
+            from deepali.core.grid import Grid
+
+            if not isinstance(r, Grid) or r is g:
+                return  # getter form
+            if name in ("clone", "__deepcopy__"):
+                ctx.true(f"{name}:copy_equals_source_including_internal_size", r == g and r.align_corners() == g.align_corners() and [float(x) for x in r._size] == [float(x) for x in g._size], op=name, got=[float(x) for x in r._size], want=[float(x) for x in g._size], flags=[r.align_corners(), g.align_corners()])
+                ctx.true(f"{name}:copy_owns_its_tensors", not ({id(r._size), id(r._center), id(r._spacing), id(r._direction)} & {id(g._size), id(g._center), id(g._spacing), id(g._direction)}), op=name)
+
+        return post
+
     def __init__(self, get_ctx):
         self.get_ctx = get_ctx
         self.inst = Installed()
@@ -63,8 +89,12 @@ class GridPost:
 
         for name in self.METHODS:
             post = getattr(self, "post_" + name)
-            self.wrappers[name] = self.inst.wrap(Grid, name, post=self._adapt(name, post))
+            self.wrappers[name] = self.inst.wrap(Grid, name, pre=self._snap, post=self._adapt(name, post))
         self.wrappers["Cube.grid"] = self.inst.wrap(Cube, "grid", post=self._adapt("Cube.grid", self.post_cube_grid))
+        # accessors that return a modified copy when given an argument, and copies: the source stays as it was
+        for name in self.COPY_ACCESSORS:
+            pre = self._snap_if_copying if name == "align_corners" else self._snap
+            self.wrappers[name] = self.inst.wrap(Grid, name, pre=pre, post=self._adapt(name, self.post_copy_accessor(name)))
         return self
 
     def uninstall(self):
@@ -83,6 +113,10 @@ class GridPost:
             if ctx is None:
                 return
             ctx.count("contract/Grid." + name if "." not in name else "contract/" + name)
+            if snap is not None and hasattr(args[0], "_size"):
+                # whatever was derived (or raised): the grid it was derived from is exactly what it was
+                now = self._snap(args, kwargs)
+                ctx.true(f"{name}:source_grid_unchanged", now["size"] == snap["size"] and now["attrs"] == snap["attrs"] and now["flag"] == snap["flag"], op=name, before=[snap["size"], snap["flag"]], after=[now["size"], now["flag"]])
             if exc is not None:
                 return  # the raise itself is observed (and classified) by the workload's guard
             post(ctx, args[0], args[1:], kwargs, result)
@@ -320,3 +354,9 @@ class GridPost:
         ctx.close("Cube.grid:center", c2, c, 0.0)
         got = s2 * (n2 - 1 if ac else n2)
         ctx.close("Cube.grid:cube_extent_reproduced", got, ext, K * EPS * ext)
+        # the requested size (x, ...) or shape (..., x) is the size of the returned grid
+        size = kw.get("size", args[0] if args else None)
+        if size is not None and not isinstance(size, (int, float)):
+            ctx.true("Cube.grid:requested_size", [int(k) for k in r.size()] == [int(k) for k in size], got=[int(k) for k in r.size()], want=[int(k) for k in size])
+        if kw.get("shape") is not None and not isinstance(kw["shape"], (int, float)):
+            ctx.true("Cube.grid:requested_shape", [int(k) for k in r.shape] == [int(k) for k in kw["shape"]], got=[int(k) for k in r.shape], want=[int(k) for k in kw["shape"]])
